@@ -613,4 +613,131 @@ Proof.
 Qed.
 End Same.
 
+
+(* ================================================================ unwinding *)
+Definition callerA (c : call) : bool := match caller cfg c with Some t => t =? A | None => false end.
+(* tenant A's (projected) responses along a run from state s *)
+Fixpoint obsA (s : state) (cs : list call) : list resp :=
+  match cs with
+  | [] => []
+  | c :: r => (if callerA c then [proj (snd (step s c))] else []) ++ obsA (fst (step s c)) r
+  end.
+Definition remove_tenant (B : N) (cs : list call) : list call :=
+  List.filter (fun c => match caller cfg c with Some t => negb (t =? B) | None => true end) cs.
+(* the same thing read off the response list of Server.run_from *)
+Fixpoint sel (cs : list call) (rs : list resp) : list resp :=
+  match cs, rs with
+  | c :: cs', r :: rs' => (if callerA c then [proj r] else []) ++ sel cs' rs'
+  | _, _ => []
+  end.
+Lemma obsA_sel : forall cs s, obsA s cs = sel cs (snd (run_from idx_str score cfg s cs)).
+Proof.
+  induction cs as [|c r IH]; intro s; [reflexivity|]. cbn [obsA run_from].
+  destruct (step s c) as [s1 o] eqn:E1. cbn [fst snd]. rewrite IH.
+  destruct (run_from idx_str score cfg s1 r) as [s2 os]. reflexivity.
+Qed.
+
+Hypothesis A_not_admin : forall k ki, nget (c_keys cfg) k = Some ki -> k_tenant ki = A -> k_admin ki = false.
+
+Definition keepB (B : N) (c : call) : bool := match caller cfg c with Some t => negb (t =? B) | None => true end.
+Lemma remove_cons : forall B c r, remove_tenant B (c :: r) = if keepB B c then c :: remove_tenant B r else remove_tenant B r.
+Proof. reflexivity. Qed.
+Lemma obsA_cons : forall s c r, obsA s (c :: r) = (if callerA c then [proj (snd (step s c))] else []) ++ obsA (fst (step s c)) r.
+Proof. reflexivity. Qed.
+
+Theorem unwinding : forall B cs s1 s2, A <> B -> equivA s1 s2 -> wf s1 -> wf s2 ->
+  (forall c, In c cs -> callerA c = true -> covered (c_req c) = true) ->
+  obsA s1 cs = obsA s2 (remove_tenant B cs).
+Proof.
+  intros B cs. induction cs as [|c r IH]; intros s1 s2 HAB E W1 W2 Hcov; [reflexivity|].
+  assert (Hcov' : forall c0, In c0 r -> callerA c0 = true -> covered (c_req c0) = true) by (intros; apply Hcov; [right|]; assumption).
+  rewrite remove_cons.
+  destruct (auth cfg (c_key c)) as [ki|] eqn:Ea.
+  - assert (Hst : forall s, step s c = handle ki s (c_req c)) by (intro; unfold Server.step; rewrite Ea; reflexivity).
+    destruct (N.eq_dec (k_tenant ki) A) as [HkA|HkA].
+    + (* A's own call *)
+      assert (Hk : keepB B c = true) by (unfold keepB, caller; rewrite Ea, HkA; apply negb_true_iff, N.eqb_neq; exact HAB).
+      assert (HcA : callerA c = true) by (unfold callerA, caller; rewrite Ea, HkA; apply N.eqb_refl).
+      rewrite Hk, !obsA_cons, HcA, !Hst.
+      destruct (auth_some _ _ _ Ea) as [k [_ [Hkk _]]].
+      destruct (handle_same ki HkA (A_not_admin k ki Hkk HkA) s1 s2 (c_req c) (Hcov c (or_introl eq_refl) HcA) E W1 W2) as [Ho Es].
+      rewrite Ho. cbn [app]. f_equal. apply IH; try assumption; apply wf_handle; assumption.
+    + assert (HcA : callerA c = false) by (unfold callerA, caller; rewrite Ea; apply N.eqb_neq; exact HkA).
+      destruct (N.eq_dec (k_tenant ki) B) as [HkB|HkB].
+      * (* the removed tenant *)
+        assert (Hk : keepB B c = false) by (unfold keepB, caller; rewrite Ea, HkB, N.eqb_refl; reflexivity).
+        rewrite Hk, obsA_cons, HcA, Hst. cbn [app]. apply IH; try assumption; [|apply wf_handle; assumption].
+        apply equivA_trans with s1; [|exact E]. apply equivA_sym. apply handle_other; assumption.
+      * (* a third tenant *)
+        assert (Hk : keepB B c = true) by (unfold keepB, caller; rewrite Ea; apply negb_true_iff, N.eqb_neq; exact HkB).
+        rewrite Hk, !obsA_cons, HcA, !Hst. cbn [app].
+        apply IH; try assumption; try (apply wf_handle; assumption).
+        apply equivA_trans with s1; [apply equivA_sym; apply handle_other; assumption|].
+        apply equivA_trans with s2; [exact E | apply handle_other; assumption].
+  - (* refused call: no effect *)
+    assert (Hk : keepB B c = true) by (unfold keepB, caller; rewrite Ea; reflexivity).
+    assert (HcA : callerA c = false) by (unfold callerA, caller; rewrite Ea; reflexivity).
+    assert (Hst : forall s, fst (step s c) = s) by (intro; unfold Server.step; rewrite Ea; reflexivity).
+    rewrite Hk, !obsA_cons, HcA, !Hst. cbn [app]. apply IH; assumption.
+Qed.
+
+Theorem noninterference_partial : forall B cs, A <> B ->
+  (forall c, In c cs -> callerA c = true -> covered (c_req c) = true) ->
+  sel cs (run idx_str score cfg cs) = sel (remove_tenant B cs) (run idx_str score cfg (remove_tenant B cs)).
+Proof.
+  intros B cs HAB Hcov. unfold run. rewrite <- !obsA_sel.
+  apply unwinding; try assumption; try apply equivA_refl; apply wf_init.
+Qed.
+
 End NI.
+
+(* ================================================================ step-level containment, witnesses *)
+Section Contain.
+Variable idx_str : N -> str.
+Variable score : Z -> Z.
+Lemma step_search_contained : forall cfg s key ki r hits tf,
+  auth cfg key = Some ki ->
+  snd (step idx_str score cfg s (mkCall key (RSearch r))) = OkSearch hits tf ->
+  (forall h, In h hits -> hit_of idx_str score ki r (st_docs s) h /\ public (h_meta h)) /\ len hits <= s_k r /\ len hits <= tf.
+Proof.
+  intros cfg s key ki r hits tf Ha H. unfold Server.step in H. cbn [c_key c_req] in H. rewrite Ha in H.
+  cbn [Server.handle] in H. unfold h_search in H.
+  destruct (search_core idx_str score cfg ki (st_docs s) r) as [c|hs t] eqn:E; cbn [snd] in H; [discriminate|].
+  inversion H; subst. destruct (search_core_contained idx_str score cfg ki (st_docs s) r hits tf E) as [C1 [C2 C3]].
+  repeat split; try assumption; [apply C1; assumption|].
+  destruct (C1 h H0) as [g [d [_ [_ [_ [_ [_ Eh]]]]]]]. subst h. cbn [h_meta]. apply public_sanitize.
+Qed.
+Lemma step_bulk_search_contained : forall cfg s key ki rs outs,
+  auth cfg key = Some ki ->
+  snd (step idx_str score cfg s (mkCall key (RBulkSearch rs))) = OkBulkSearch outs ->
+  forall hits tf, In (SOk hits tf) outs ->
+  exists r, In r rs /\ (forall h, In h hits -> hit_of idx_str score ki r (st_docs s) h /\ public (h_meta h)) /\ len hits <= s_k r.
+Proof.
+  intros cfg s key ki rs outs Ha H hits tf Hin. unfold Server.step in H. cbn [c_key c_req] in H. rewrite Ha in H.
+  cbn [Server.handle] in H. unfold h_bulk_search in H. cbn [snd] in H. inversion H; subst. clear H.
+  apply in_map_iff in Hin. destruct Hin as [r [E Hr]]. exists r. split; [exact Hr|].
+  destruct (search_core_contained idx_str score cfg ki (st_docs s) r hits tf E) as [C1 [C2 C3]].
+  split; [|exact C2]. intros h Hh. split; [apply C1; exact Hh|].
+  destruct (C1 h Hh) as [g [d [_ [_ [_ [_ [_ Eh]]]]]]]. subst h. cbn [h_meta]. apply public_sanitize.
+Qed.
+End Contain.
+
+(* ---- witnesses (evaluated by the kernel's VM on the executable model) *)
+Definition w_score (d : Z) : Z := (100000 - d)%Z.      (* any strictly decreasing stand-in for the f32 score *)
+Definition w_cfg : config :=
+  mkCfg [(1, mkKey 0 (s2l "acme") true false 1000); (2, mkKey 1 (s2l "bolt") true false 1000)] 2.
+Definition w_item (id : N) (x : Z) : item := mkItem id [x; 0%Z] [] [].
+Definition w_a_inserts : list call := map (fun i => mkCall (Some 1) (RInsert (w_item i (4 + Z.of_N i)%Z))) [1; 2; 3; 4; 5].
+Definition w_b_inserts : list call := map (fun i => mkCall (Some 2) (RInsert (w_item i (Z.of_N i - 3)%Z))) [1; 2; 3; 4; 5].
+Definition w_search : call := mkCall (Some 1) (RSearch (mkSreq [0%Z; 0%Z] 5 0%Z [] false 0 None [])).
+Definition w_flush : call := mkCall (Some 1) (RFlush true).
+Definition hits_of (r : resp) : N := match r with OkSearch h _ => len h | _ => 999 end.
+
+Lemma search_count_witness :
+  hits_of (last (run dec_str w_score w_cfg (w_a_inserts ++ w_b_inserts ++ [w_search])) (Err Internal)) = 0 /\
+  hits_of (last (run dec_str w_score w_cfg (remove_tenant w_cfg 1 (w_a_inserts ++ w_b_inserts ++ [w_search]))) (Err Internal)) = 5.
+Proof. split; vm_compute; reflexivity. Qed.
+Lemma flush_count_witness :
+  last (run dec_str w_score w_cfg (w_a_inserts ++ w_b_inserts ++ [w_flush])) (Err Internal) = OkFlush 10 /\
+  last (run dec_str w_score w_cfg (remove_tenant w_cfg 1 (w_a_inserts ++ w_b_inserts ++ [w_flush]))) (Err Internal) = OkFlush 5.
+Proof. split; vm_compute; reflexivity. Qed.
